@@ -54,3 +54,49 @@ Proof.
   all: match type of H with (if ?c then _ else _, _) = _ => destruct c end;
     try (destruct (tq_closed s)); inversion H; subst; simpl; split; intros; try discriminate; auto 10.
 Qed.
+
+(* ---------------------------------------------------------------- FIN carries the next frame number *)
+From Hop Require Import ShutdownSpec.
+From Coq Require Import Lia ZifyN ZifyNat.
+Local Open Scope N_scope.
+
+Definition snd_inv (s : snd) : Prop :=
+  (forall f, In f (datas s) -> 1 <= f /\ f < (if finSent s then finNo s else frameNo s)) /\
+  (if finSent s then frameNo s = finNo s + 1 else True) /\
+  N.of_nat (length (datas s)) + 1 = (if finSent s then finNo s else frameNo s).
+
+Lemma push_frames_spec n f l : forall f' l', push_frames n f l = (f', l') ->
+  f' = f + N.of_nat n /\ length l' = (length l + n)%nat /\
+  (forall g, In g l' -> In g l \/ (f <= g /\ g < f')).
+Proof.
+  revert f l; induction n as [|n IH]; intros f l f' l' H; simpl in H.
+  - inversion H; subst. repeat split; auto; lia.
+  - apply IH in H. destruct H as (A & B & C). rewrite app_length in B. simpl in B.
+    repeat split; try lia. intros g Hg. destruct (C g Hg) as [Hi|Hi].
+    + apply in_app_or in Hi. destruct Hi as [Hi|[Hi|[]]]; [left; auto|right; lia].
+    + right. lia.
+Qed.
+
+Lemma snd_step_inv s o : snd_inv s -> snd_inv (snd_step s o).
+Proof.
+  intros HI. pose proof HI as (A & B & C). unfold snd_step. destruct o as [n|]; destruct (finSent s) eqn:Ef; try exact HI.
+  - destruct (push_frames n (frameNo s) (datas s)) as [f l] eqn:Ep.
+    apply push_frames_spec in Ep. destruct Ep as (P1 & P2 & P3).
+    unfold snd_inv; simpl. split; [|split; [exact I|lia]].
+    intros g Hg. destruct (P3 g Hg) as [Hi|Hi]; [destruct (A _ Hi); lia|lia].
+  - unfold snd_inv; simpl. split; [|split; [reflexivity|lia]].
+    intros g Hg. destruct (A _ Hg); lia.
+Qed.
+
+Theorem fin_after_data l : let s := snd_run l in
+  finSent s = true ->
+  finNo s = N.of_nat (length (datas s)) + 1 /\ (forall f, In f (datas s) -> 1 <= f < finNo s) /\ frameNo s = finNo s + 1.
+Proof.
+  assert (H : snd_inv (snd_run l)).
+  { unfold snd_run.
+    assert (G : snd_inv snd_init).
+    { unfold snd_inv, snd_init; simpl. split; [intros g Hg; contradiction|split; [exact I|reflexivity]]. }
+    revert G. generalize snd_init. induction l as [|o r IH]; intros s0 G; simpl; auto. apply IH. apply snd_step_inv; auto. }
+  intros s Hf. subst s. destruct H as (A & B & C). rewrite Hf in *.
+  split; [lia|]. split; [|lia]. intros g Hg. destruct (A _ Hg). lia.
+Qed.
